@@ -87,7 +87,7 @@ def main():
             "evidence_file": "/verif/evidence/%s.json" % pid,
             "replay_cmd_template": "./bin/iplcheck -repo /repo -property %s -explain {path}" % pid,
             "engine": "iplcheck",
-            "level_claimed": {"category": level, "text": c["text"], "design_ref": c["ref"]},
+            "level_claimed": {"category": level, "text": c["text"] + " Rules added after the seeding rounds (for-every loops, refused operations leave no trace, option forwarding, error discipline, obligations adopted from properties sharing a necessary condition) are listed with their statement in the evidence file (coverage.rules) and in DESIGN §9.5/§9.8; each is a structural necessary condition, none decides the behaviour.", "design_ref": c["ref"] + "; §9"},
             "level_note": c["note"],
             "technique": c["technique"],
         })
